@@ -221,6 +221,7 @@ def run_lift_unit(pid, unit, tier, seed, outdir):
     res = {"unit": unit["name"], "engine": "LIFT-C", "obligations": obligations, "discharged": discharged, "inconclusive": inconclusive, "queries": queries,
            "solver_s": round(sum(s["wall_s"] + s["witness_wall_s"] for s in summ), 1), "complete": complete and not internal, "samples": samples,
            "labels": labels, "violations": violations, "encoded": unit.get("encoded", []) + ["IR functions: " + "; ".join(prep["ir2c_log"][:12])],
+           "exe_real": prep["exe_real"], "wd": prep["wd"],
            "summary": {"harnesses": summ, "translation_validation": val, "wall_s": round(time.time() - t0, 1)}}
     if internal:
         raise RuntimeError("; ".join(internal))
